@@ -106,13 +106,15 @@ def finish(mod, units, results, tier, seed, t0, extra_cov=None, reach_spec=None)
 
     floors = mod.floors(tier) if hasattr(mod, "floors") else {}
     shortfalls = []
-    if agg["evals"] < floors.get("evals", 1):
-        shortfalls.append(f"evaluations {agg['evals']} < floor {floors.get('evals', 1)}")
-    if len(agg["fps"]) < floors.get("distinct", 2):
-        shortfalls.append(f"distinct_nontrivial {len(agg['fps'])} < floor {floors.get('distinct', 2)}")
+    # floors are written as "what a full run observes"; 15 % slack absorbs the odd unit lost to a watchdog
+    slack = lambda n: max(1, int(n * 0.85)) if n > 0 else 0  # noqa: E731
+    if agg["evals"] < slack(floors.get("evals", 1)):
+        shortfalls.append(f"evaluations {agg['evals']} < floor {slack(floors.get('evals', 1))}")
+    if len(agg["fps"]) < max(2, slack(floors.get("distinct", 2))):
+        shortfalls.append(f"distinct_nontrivial {len(agg['fps'])} < floor {max(2, slack(floors.get('distinct', 2)))}")
     for k, n in (floors.get("counters") or {}).items():
-        if agg["counters"].get(k, 0) < n:
-            shortfalls.append(f"counter {k} {agg['counters'].get(k, 0)} < floor {n}")
+        if agg["counters"].get(k, 0) < slack(n):
+            shortfalls.append(f"counter {k} {agg['counters'].get(k, 0)} < floor {slack(n)}")
     n_harness = sum(1 for e in agg["errors"] if e["status"] == "harness_error")
     n_crashed = sum(1 for e in agg["errors"] if e["status"] == "crashed")
     if n_harness:
